@@ -89,21 +89,33 @@ func (c *Crew) NewCaptainSpec() *core.Spec {
 			"do": {
 				Action: &core.FuncAction{
 					F: func(ctx context.Context, bs match.Bindings, props core.StepProps) (*core.Execution, error) {
+						// failed reports an op that could
+						// not be executed.  The op's own
+						// binding ("?op") is dropped (as it
+						// is when an op succeeds):
+						// otherwise the start node would
+						// only match an op that repeats it.
+						failed := func(msg string) (*core.Execution, error) {
+							return core.NewExecution(match.NewBindings().Extend("error", msg)), nil
+						}
+
 						x, have := bs["?op"]
 						if !have {
-							return core.NewExecution(bs.Extend("error", "no op")), nil
+							return failed("no op")
 						}
 						op, err := AsCrewOp(x)
 						if err != nil {
-							return core.NewExecution(bs.Extend("error", "bad crew op: "+err.Error())), nil
+							return failed("bad crew op: " + err.Error())
 						}
 						if op == nil {
-							return core.NewExecution(bs), nil
+							// Not a crew op: nothing to do (and
+							// nothing to remember).
+							return core.NewExecution(match.NewBindings()), nil
 						}
 
 						err = c.DoOp(ctx, op)
 						if err != nil {
-							return core.NewExecution(bs.Extend("error", "crew op error: "+err.Error())), nil
+							return failed("crew op error: " + err.Error())
 						}
 
 						return core.NewExecution(match.NewBindings()), nil
